@@ -394,13 +394,14 @@ pub struct HOutcome {
   pub max_growth: usize,
 }
 
-pub fn run_case(seed: u64, index: u64, n_dgrams: usize, acc: &mut Acc, br: &Bracket) -> HOutcome {
-  let mut rng = Rng::derive(seed, 0x0606, index);
+pub fn run_case(seed: u64, index: u64, n_dgrams: usize, leg: &str, acc: &mut Acc, br: &Bracket) -> HOutcome {
+  // the second leg explores other inputs than the first
+  let mut rng = Rng::derive(seed, if leg.is_empty() { 0x0606 } else { 0x0607 }, index);
   let mut b = build();
   let mut st = GenState::default();
   let mut out = HOutcome { datagrams: 0, panics: 0, aftermath_ok: false, max_cpu_s: 0.0, max_growth: 0 };
   let mut journal: Vec<(String, String)> = vec![];
-  let tag = json!({"seed": seed, "stream": 0x0606, "index": index});
+  let tag = json!({"seed": seed, "stream": 0x0606, "index": index, "leg": leg});
   let mut poisoned = false;
   for k in 0..n_dgrams {
     let (label, dg) = gen_datagram(&mut rng, &b.ids, &mut st);
@@ -443,7 +444,8 @@ pub fn run_case(seed: u64, index: u64, n_dgrams: usize, acc: &mut Acc, br: &Brac
     if cpu > CPU_DISPROPORTIONATE_S {
       acc.violate(format!("C06/time:disproportionate-cpu:{label}"), json!({"thread_cpu_s": cpu, "datagram_len": dg.len()}), replay());
     }
-    if growth > mem_budget(dg.len()) {
+    // a panic's own backtrace capture allocates tens of MB with debug info: not the datagram's doing
+    if growth > mem_budget(dg.len()) && r.is_ok() {
       acc.violate(format!("C06/memory:disproportionate-heap-growth:{label}"), json!({"peak_growth_bytes": growth, "largest_single_request": largest, "datagram_len": dg.len(), "budget": mem_budget(dg.len())}), replay());
     }
     if poisoned {
@@ -467,7 +469,22 @@ pub fn run_case(seed: u64, index: u64, n_dgrams: usize, acc: &mut Acc, br: &Brac
       wire::heartbeat(&mut dg, true, b.ids.rel_reader, weid, 1, sn, sn as i32, false, false);
       b.rel.inject(&dg);
     }
-    b.rel.op(&ReadOp::Take { max: usize::MAX, not_read_only: false })
+    // an unintelligible (hostile) sample still in the cache makes one take() fail and is then skipped (C09):
+    // keep taking until the reader has nothing more; only a take that keeps failing is held against it
+    let mut all = vec![];
+    let mut errs = 0;
+    loop {
+      match b.rel.op(&ReadOp::Take { max: usize::MAX, not_read_only: false }) {
+        Ok(v) if v.is_empty() => break Ok(all),
+        Ok(v) => all.extend(v),
+        Err(e) => {
+          errs += 1;
+          if errs > 300 {
+            break Err(e);
+          }
+        }
+      }
+    }
   }));
   br.mark(None);
   match res {
